@@ -97,7 +97,7 @@ inline long check_nodal(Ctx &ctx, const char *oracle, const GridState &st, doubl
     if (!assert_values) return 0;
     // known finding C01-wavelet-transformed-boundary: loaded points whose library-style canonical image rounds outside [-1,1]
     std::vector<char> skip((size_t)n, 0); long nskip = 0;
-    if (g.isWavelet() && g.isSetDomainTransfrom() && ctx.excl("C01-wavelet-transformed-boundary")) {
+    if (g.isWavelet() && g.isSetDomainTransfrom() && ctx.excl(std::string(oracle).substr(0, 3) + "-wavelet-transformed-boundary")) {   // one entry per affected property (C01, C18, ...)
         std::vector<double> a, b; g.getDomainTransform(a, b);
         for (int i = 0; i < n; i++) for (int j = 0; j < d; j++) {
             double rate = 2.0 / (b[(size_t)j] - a[(size_t)j]), shift = (b[(size_t)j] + a[(size_t)j]) / (b[(size_t)j] - a[(size_t)j]);
